@@ -329,9 +329,10 @@ def run(ctx):
 
     total = 0
     per_version = {}
-    for version in (2, 3, 4, 5):
-        # (DWARF 2, 3 and 4 units are laid out alike: the same offsets, other encodings)
-        unit, tests = build(version, {2: 0, 3: 1, 4: 5, 5: 0}[version])
+    for version, big in ((2, False), (3, False), (4, False), (5, False), (4, True), (3, True)):
+        # (DWARF 2, 3 and 4 units are laid out alike: the same offsets, other encodings; the last two are big-endian
+        #  objects: fixed-size data and block-form constants are read in the byte order of the file)
+        unit, tests = build(version, {2: 0, 3: 1, 4: 5, 5: 0}[version] + (2 if big else 0))
         # every value also read through two links (DW_AT_abstract_origin -> DW_AT_specification -> the DIE
         # that stores it): `@AT_x` must decode it in the context of the DIE that stores it
         readers = []
@@ -345,8 +346,8 @@ def run(ctx):
             readers.append(r2)
         f = Forest([unit])
         dwforest.fix_small_refs(f)
-        path = os.path.join(d, "c07-v%d.o" % version)
-        write_object(f, path)
+        path = os.path.join(d, "c07-v%d%s.o" % (version, "be" if big else ""))
+        write_object(f, path, big=big)
         # the type context of every DW_AT_const_value comes from the model of get_type_die (dw/TypeCtx.v), fed the
         # type DIEs as laid out; the generator's own idea of it must agree (or the generator is wrong)
         tl = ["R"]
@@ -379,6 +380,8 @@ def run(ctx):
         for die, a, c in tests:
             c = ctx_of.get(id(die), c)
             raw = B.raw_text(a)
+            if big and raw.startswith("B"):
+                raw = "B" + raw
             if raw == "REF":
                 raw = "REF %d" % a.value.off
             mlines.append("%d %s | %s" % (C(a.name), raw, c))
@@ -388,7 +391,8 @@ def run(ctx):
         if len(mres) != len(mlines):
             raise RuntimeError("zwmodel atval: %d answers for %d" % (len(mres), len(mlines)))
         ires = zw.run_cases(qlines)
-        per_version[version] = (path, tests, ires)
+        if not big:
+            per_version[version] = (path, tests, ires)
         # the same values through the two-link chains
         cq = [(i, zw.enc("entry ?(offset == %d) [@%s]" % (rd.off, tests[i][1].name[3:]), dw=path, t=30)) for i, rd in enumerate(readers) if rd is not None]
         cres = zw.run_cases([q for _, q in cq])
@@ -409,7 +413,7 @@ def run(ctx):
             total += 1
             kind = m.split(" ")[0]
             hist[kind] = hist.get(kind, 0) + 1
-            desc = "%s (%s) = %s on a %s [type context %s, DWARF %d]" % (a.name, a.form, a.value.off if isinstance(a.value, Die) else a.value, die.tag, c, version)
+            desc = "%s (%s) = %s on a %s [type context %s, DWARF %d]" % (a.name, a.form, a.value.off if isinstance(a.value, Die) else a.value, die.tag, c, version) + (" [big-endian file]" if big else "")
             case = {"attribute": a.name, "form": a.form, "value": str(a.value.off if isinstance(a.value, Die) else a.value), "context": c, "version": version,
                     "die": die.off, "file": path, "model": m}
             if r.crash:
